@@ -130,6 +130,10 @@ Definition spec (c : case) : bool :=
     is_prefix (leading_frames gs) obs
     && forallb (fun p => (13 <=? fst p) && (fst p <=? 65535)) obs
     && negb (err =? 0)
+    (* nothing is made up: the messages handed back, with their length prefixes, fit into what the stream
+       delivered (a frame cut short by the end of the stream is an error, not a message) *)
+    && (fold_left (fun acc p => acc + fst p + 2) obs 0
+        <=? len (flat (build_stream (S (length gs)) sizes gs)))
   | CWrite w n seed obs =>
     if n <=? 65535 then
       match obs with
